@@ -26,6 +26,12 @@ Proof.
   exists (map Some [97; 98; 99; 98; 99; 97; 98; 0]). split; vm_compute; reflexivity.
 Qed.
 
+(* the same from new(String) without arguments *)
+Theorem C16_history_refines_from_empty : forall ops, Forall op_ok ops ->
+  exists bf, c_run m_new_empty ops = (fst (spec_run [] ops), bf) /\ repr bf (snd (spec_run [] ops)).
+Proof. exact c_history_refines_from_empty. Qed.
+Print Assumptions C16_history_refines_from_empty.
+
 Theorem C16_step_refines : forall b s o, repr b s -> op_ok o ->
   exists b', c_step b o = (b', snd (spec_step s o)) /\ repr b' (fst (spec_step s o)).
 Proof. exact c_step_refines. Qed.
